@@ -461,8 +461,10 @@ Section Resolver.
         if pref_less k bk then pick_min ur st n k ns else pick_min ur st best bk ns
     end.
 
-  (* the main loop of resolution.resolve; fuel is maxRounds *)
-  Fixpoint rounds (ur : list (bytes * Z)) (fuel : nat) (states : list state) : res state :=
+  (* the main loop of resolution.resolve; fuel is maxRounds.  The counter (number of successful
+     backtracks) is not part of the Go code: it only lets examples and the harness see that a
+     resolution did backtrack. *)
+  Fixpoint rounds_cnt (ur : list (bytes * Z)) (fuel : nat) (states : list state) (nb : nat) : res (state * nat) :=
     match fuel with
     | O => Err ETooDeep
     | S f =>
@@ -470,22 +472,25 @@ Section Resolver.
         | [] => Err EInternal
         | st :: below =>
             match unsatisfied st with
-            | [] => Ok st
+            | [] => Ok (st, nb)
             | n0 :: ns =>
                 let name := pick_min ur st n0 (get_preference ur st n0) ns in
                 r <- attempt_to_pin st name ;;
                 match snd r with
-                | O => rounds ur f (fst r :: fst r :: below)
+                | O => rounds_cnt ur f (fst r :: fst r :: below) nb
                 | S _ =>
                     bt <- backtrack (length states) states ;;
                     match bt with
-                    | Some states' => rounds ur f states'
+                    | Some states' => rounds_cnt ur f states' (S nb)
                     | None => Err EImpossible
                     end
                 end
             end
         end
     end.
+
+  Definition rounds (ur : list (bytes * Z)) (fuel : nat) (states : list state) : res state :=
+    r <- rounds_cnt ur fuel states O ;; Ok (fst r).
 
   (* the initial criteria from the direct dependencies *)
   Fixpoint init_criteria (st : state) (deps : list req) : res state :=
@@ -508,6 +513,14 @@ Section Resolver.
       deps <- root_deps ;;
       st0 <- init_criteria empty_state deps ;;
       rounds (user_requested deps 0%Z []) fuel [st0; st0].
+
+  (* number of successful backtracks of the same run (instrumentation only) *)
+  Definition resolve_backtracks_fuel (fuel : nat) : res nat :=
+    if negb (N.eqb (vk_type root) version_type_concrete) then Err EBadRoot
+    else
+      deps <- root_deps ;;
+      st0 <- init_criteria empty_state deps ;;
+      r <- rounds_cnt (user_requested deps 0%Z []) fuel [st0; st0] O ;; Ok (snd r).
 
   (* ----- buildGraph ----- *)
   Definition conn := list (vkey * bool).
@@ -669,6 +682,10 @@ Definition tab_ver_lt (t : table) (a b : bytes) : bool :=
 
 Definition tab_resolve_fuel (t : table) (root : vkey) (fuel : nat) : res graph :=
   resolve_fuel (tab_versions t) (tab_requirements t) (tab_matching t) (tab_marker t)
+               (tab_has_pre t) (tab_cons_ok t) (tab_match_pre t) (tab_ver_lt t) root fuel.
+
+Definition tab_backtracks (t : table) (root : vkey) (fuel : nat) : res nat :=
+  resolve_backtracks_fuel (tab_versions t) (tab_requirements t) (tab_matching t) (tab_marker t)
                (tab_has_pre t) (tab_cons_ok t) (tab_match_pre t) (tab_ver_lt t) root fuel.
 
 Definition tab_resolve (t : table) (root : vkey) : res graph :=
